@@ -125,9 +125,26 @@ def runErrvis (c : Case) : Res :=
       let ofs := if badVis.isEmpty then "of=C04,C08" else "of=C04"
       { verdict := "ORACLE", tags := ofs :: tags, msg := m }
 
+/-- Family `cli`: oracles on the command-line front end alone (see harness/src/cli.rs). -/
+def runCli (c : Case) : Res :=
+  let kind := (kv? c.header "kind").getD "?"
+  let impl := (c.lines.find? (fun l => l.head? == some "impl")).getD []
+  let prop := if kind == "files" then "C07" else "C10"
+  let tags := [s!"nt={prop}", s!"kind={kind}", s!"sorted={(kv? c.header "sorted").getD "-"}", s!"nfiles={(kv? c.header "nfiles").getD "-"}"]
+  match impl[1]? with
+  | some "same" => { verdict := "ok", tags := tags }
+  | some "skipped" => { verdict := "ok", tags := "nt=" :: tags.drop 1 }
+  | some "differ" =>
+    { verdict := "ORACLE", tags := s!"of={prop}" :: tags,
+      msg := (if kind == "files" then "the files given in order print something else than the single concatenated file: "
+              else "acb --summarize-before D prints something else than the summary for the date D: ") ++
+             String.intercalate " " (impl.drop 2) }
+  | _ => { verdict := "BADCASE", msg := "unparsable cli case" }
+
 def dispatch (c : Case) : Res :=
   match c.family with
   | "ledger" => runLedger c
+  | "cli" => runCli c
   | "app" => runApp c
   | "symbase" => runSymbase c
   | "splitneutral" => runSplitneutral c
